@@ -173,8 +173,9 @@ EndOfCall(m, r) ==
                \o (IF Len(r.cbs) > 0 THEN << Flag("C19", "callback made by Maintain after Close") >> ELSE << >>)
           ELSE IF r.op = "maintain" /\ r.ret # "ok" THEN << Flag("C19", "Maintain failed on an open Reassembler") >>
           ELSE IF r.op = "newnil" /\ r.ret # "err" THEN << Flag("C19", "Reassembler created without a Stream") >>
-          ELSE IF r.op \in {"pushnil"} /\ Len(r.cbs) > 0 THEN << Flag("C01", "callback caused by a nil message") >>
-          ELSE IF r.op = "pushraw" /\ r.ret = "err" /\ Len(r.cbs) > 0 THEN << Flag("C01", "callback caused by a rejected Push") >>
+          \* a nil message or a Push that is refused may or may not run the clean-up (C19 speaks of "the first
+          \* Maintain or PushMessage made after the timeout"): whatever such a call delivers is judged like any
+          \* other delivery by ApplyCbs, nothing more is asked of it
           ELSE << >>
         fpanic == IF r.ret = "panic" THEN << Flag("C01", "call panicked") >> ELSE << >>
     IN  [m EXCEPT !.flags = @ \o f03 \o f19loss \o f10 \o f19a \o f19b \o fpanic,
